@@ -382,3 +382,28 @@ def execute(oplists, seed, opts, focus, workers=16):
         with ProcessPoolExecutor(max_workers=workers) as ex:
             results = list(ex.map(run_ops, jobs, chunksize=max(1, len(jobs) // (workers * 4))))
     return merge_batches(results, focus)
+
+
+def repo_test_traces(focus, timeout=600):
+    """Run the repository's own test-suite under the recording plugin (harness/pytest_record_plugin.py)
+    and return the recorded batch (one trace per Converter instance the tests created)."""
+    import subprocess
+    import sys
+    src = os.environ.get("CURIES_SRC", "/repo/src")
+    root = os.path.dirname(src)
+    d = tlc.scratch("repotests")
+    out = os.path.join(d, "traces.json")
+    env = dict(os.environ, VERIF_REC_OUT=out, PYTHONPATH=os.path.dirname(os.path.abspath(__file__)) + os.pathsep + src, PYTHONHASHSEED="0")
+    try:
+        p = subprocess.run([sys.executable, "-m", "pytest", "-q", "-p", "no:cacheprovider", "-p", "pytest_record_plugin", "--timeout=900", "tests"],
+                           cwd=root, env=env, stdout=subprocess.PIPE, stderr=subprocess.STDOUT, text=True, timeout=timeout)
+        if not os.path.exists(out):
+            raise MachineryError("the recording plugin produced no traces\n" + p.stdout[-1500:])
+        with open(out) as f:
+            batch = json.load(f)
+        import re
+        m = re.search(r"(\d+) passed", p.stdout)
+        batch["focus"] = sorted(focus)
+        return batch, int(m.group(1)) if m else 0
+    finally:
+        shutil.rmtree(d, ignore_errors=True)
